@@ -78,7 +78,63 @@ def evaluate(repo: Path):
         return None
 
 
-def render(rows) -> str:
+def evaluate_mapk(repo: Path):
+    """the shipped MAPKCascade preset, evaluated: per tier (has a gate, factor, required, has a handler) for the constructor
+    factors 2, 3, 5 and, on the four abstract inputs (a raw int, the dicts of tier 1 / 2 / 3 as the preset itself produces
+    them), the gate's answer (0 false 1 true 2 raises 3 no gate) and the tier of the processor's output (9 = raises).
+    None when the preset does not have the expected outline (fail closed)."""
+    try:
+        from operon_ai.topology import cascade as m
+        if not str(Path(m.__file__).resolve()).startswith(str(Path(repo).resolve())):
+            return None
+        added = []
+
+        class Rec(m.MAPKCascade):
+            def add_stage(self, stage, *a, **kw):
+                added.append(stage)
+                return super().add_stage(stage, *a, **kw)
+        casc = Rec(tier1_amplification=2.0, tier2_amplification=3.0, tier3_amplification=5.0, silent=True)
+        stages = added if added else list(casc._stages)
+        if len(stages) != 3 or len(casc._stages) != 3:
+            return None
+        # the abstract inputs: raw, then what the chain itself produces
+        inputs = [7]
+        cur = 7
+        for st in stages:
+            cur = st.processor(cur)
+            inputs.append(cur)
+
+        def tier_of(v):
+            if isinstance(v, dict) and v.get("active") is True and v.get("tier") in (1, 2, 3):
+                return v["tier"]
+            return 8            # something the abstraction does not know
+        if [tier_of(v) for v in inputs[1:]] != [1, 2, 3]:
+            return None
+        attrs, rows = [], []
+        for k, st in enumerate(stages):
+            amp = st.amplification
+            if amp != int(amp):
+                return None
+            attrs.append((st.checkpoint is not None, int(amp), bool(st.required), st.on_error is not None))
+            for a, v in enumerate(inputs):
+                if st.checkpoint is None:
+                    g = 3
+                else:
+                    try:
+                        g = 1 if st.checkpoint(v) else 0
+                    except Exception:
+                        g = 2
+                try:
+                    pc = tier_of(st.processor(v))
+                except Exception:
+                    pc = 9
+                rows.append((k, a, g, pc))
+        return attrs, rows
+    except Exception:
+        return None
+
+
+def render(rows, mapk=None) -> str:
     b = lambda x: "true" if x else "false"
     on = lambda x: "none" if x is None else f"(some {x})"
     lines = []
@@ -92,6 +148,12 @@ def render(rows) -> str:
     parts = [lines[k:k + 250] for k in range(0, len(lines), 250)]
     defs = "".join(f"def part{n} : List Row := [\n  " + ",\n  ".join(ls) + "]\n\n" for n, ls in enumerate(parts))
     table = "none" if rows is None else "some (List.flatten [" + ", ".join(f"part{n}" for n in range(len(parts))) + "])"
+    if mapk is None:
+        mapk_s = "none"
+    else:
+        attrs, mrows = mapk
+        mapk_s = ("some ([" + ", ".join(f"({b(g)}, {a}, {b(r)}, {b(h)})" for (g, a, r, h) in attrs) + "], ["
+                  + ", ".join(f"({k}, {a}, {g}, {pc})" for (k, a, g, pc) in mrows) + "])")
     return f"""/- GENERATED by harness/vf/extract/e_cascade.py by evaluating the real Cascade.run — do not edit. -/
 namespace Operon.Gen.CascadeTable
 
@@ -106,6 +168,11 @@ abbrev Row := Nat × Bool × List (Nat × Nat × Nat × Bool) × Bool × Option 
   List (Nat × Nat × Nat × Nat) × Nat
 
 {defs}def table : Option (List Row) := {table}
+
+/-- the shipped MAPK preset evaluated (constructor factors 2, 3, 5): per tier (has a gate, factor, required, has a handler) and
+    (tier index, abstract input 0 raw / k = dict of tier k, gate answer 0 false 1 true 2 raises 3 no gate, tier of the processor's
+    output or 9 = raises) -/
+def mapkFacts : Option (List (Bool × Nat × Bool × Bool) × List (Nat × Nat × Nat × Nat)) := {mapk_s}
 
 end Operon.Gen.CascadeTable
 """
